@@ -7,6 +7,5 @@
 package main
 
 //@ func (h *handler) Handle$8
-//@   requires h != nil
 //@   at DeleteGroups#1 before assert [C24.delete_groups_forwards_only_the_permitted_list] sameSlice(arg1.Groups, allowed)
 //@   at DeleteGroups#1 before stop
